@@ -2224,7 +2224,13 @@ func builtinAppend(env *LEnv, args *LVal) *LVal {
 		// the result is unsealed storage this call owns, so chaining extends
 		// it as before.  Exactly one allocation on each arm -- the sealed
 		// copy is sized for the append rather than clamped and regrown.
-		if seq.sealed {
+		//
+		// The same hole is there for ANY input, sealed or not: with no values
+		// the clamped append returns seq's own backing, and the "new value"
+		// this non-mutating constructor promises is a second window onto
+		// seq -- (stable-sort < (append 'vector v)) reorders v.  So the
+		// no-values call is answered the same way, with a copy.
+		if seq.sealed || len(vals) == 0 {
 			fresh := make([]*LVal, len(cells), len(cells)+len(vals))
 			copy(fresh, cells)
 			//elps:mutates appends into `fresh`, which this function allocated two lines above with capacity for exactly this append; the sealed input is only read
